@@ -9,7 +9,7 @@ fn is_pow2(x: usize) -> bool {
     x != 0 && (x & (x - 1)) == 0
 }
 
-//@ props=C10,C08 tier=quick timeout=1200 mem=12 model=0 loops=largest_power_of_2_not_in_excess:66
+//@ props=C10,C08 tier=quick timeout=1200 mem=4 model=0 loops=largest_power_of_2_not_in_excess:66
 //@ functions=BlockHandler::negotiate_block_size_if_necessary, BlockValue::new, BlockValue::largest_power_of_2_not_in_excess, BlockValue::size
 //@ bounds=overhead 4..70000, payload 0..100000, budget M 0..100000, client block: none or (any num: u16, more, szx 0..7) - all symbolic; assertions apply in the property's band overhead+28 <= M <= 1280
 //@ what=in the band: chosen size is a power of two in 16..1024, <= the client's size, overhead+12+size <= M, = client size when client size + 32 <= M - overhead; block number agrees with the byte offset; unfragmented => overhead+payload fits; an error only for a block number beyond 65535
@@ -78,7 +78,7 @@ fn c10_negotiate() {
     }
 }
 
-//@ props=C11,C10 tier=quick timeout=1200 mem=12 model=0 loops=largest_power_of_2_not_in_excess:66
+//@ props=C11,C10 tier=quick timeout=1200 mem=4 model=0 loops=largest_power_of_2_not_in_excess:66
 //@ functions=BlockHandler::negotiate_block_size_if_necessary, BlockValue::new
 //@ bounds=overhead 0..70000, payload 0..100000, budget M: every usize, client block: none or (any u16 num, more, szx 0..7)
 //@ what=returns Ok or Err for every input - no division by zero, overflow or other panic (budgets from 0 upward, overhead below, at and above the budget)
@@ -115,7 +115,7 @@ fn c11_negotiate_total() {
     }
 }
 
-//@ props=C11 tier=quick timeout=1200 mem=12 cap=2
+//@ props=C11 tier=quick timeout=1200 mem=4 cap=2
 //@ functions=BlockHandler::compute_message_size_hack, Packet::to_bytes_internal
 //@ bounds=message with one option whose value length is symbolic 0..1400 (overhead below, at and above 1280), payload 0..2 bytes
 //@ what=the overhead measurement returns for every message a peer can send (from_bytes has no size limit) - no panic when the non-payload part alone exceeds the 1280-byte encoder limit
@@ -179,7 +179,7 @@ macro_rules! c10_bridge {
     };
 }
 
-//@ props=C10 tier=quick timeout=1500 mem=14 cap=4 name=c10_overhead_bridge
+//@ props=C10 tier=quick timeout=1500 mem=8 cap=4 name=c10_overhead_bridge
 //@ functions=BlockHandler::compute_message_size_hack, Packet::to_bytes, Packet::add_option_as::<BlockValue>
 //@ bounds=message: 2-byte token, Uri-Path of symbolic length 0..20, one further option (number 60, above the block options) of 1 byte, payload of 2 bytes; block options with any num/more/szx
 //@ what=ties the integer kernel to real messages: measured size = encoded length less the payload marker, and marker + Block1 + Block2 options stay within the 12 bytes the negotiation reserves
@@ -300,14 +300,14 @@ macro_rules! c08_serve {
     };
 }
 
-//@ props=C08,C12 tier=quick timeout=2400 mem=24 cap=3 name=c08_serve_step
+//@ props=C08,C12 tier=quick timeout=2400 mem=8 cap=3 name=c08_serve_step
 //@ functions=BlockHandler::maybe_serve_cached_response, BlockHandler::packet_clone_limited, Packet::set_options_as::<BlockValue>, Packet::set_option
 //@ bounds=cached response: any id / 1-byte token / type, one ETag byte, body of symbolic length 0..40 with symbolic bytes; request: any id / token / type, Block2 num 0..3, block size 16
 //@ what=served payload = body[num*16 .. min((num+1)*16, len)]; more <=> bytes remain; Block2 echoes num/size; cached options repeated; reply carries the request's id and token; Err iff the block starts at or beyond the end (an empty body is served as one empty final block)
 //@ assumes=option map is the array model; the sum over num = 0,1,2.. of these steps is the reassembly statement (argument, not a query)
 c08_serve!(c08_serve_step, 40, 3, 0);
 
-//@ props=C08,C12 tier=thorough timeout=3600 mem=40 cap=3 name=c08_serve_step_32
+//@ props=C08,C12 tier=thorough timeout=3600 mem=32 cap=3 name=c08_serve_step_32
 //@ functions=BlockHandler::maybe_serve_cached_response, BlockHandler::packet_clone_limited
 //@ bounds=as c08_serve_step with body 0..80 bytes, block size 32, num 0..3
 //@ what=as c08_serve_step
@@ -394,19 +394,19 @@ macro_rules! c08_release {
     };
 }
 
-//@ props=C08 tier=quick timeout=2400 mem=24 cap=3 name=c08_release
+//@ props=C08 tier=quick timeout=2400 mem=7 cap=3 name=c08_release
 //@ functions=BlockHandler::maybe_handle_request_block2, BlockHandler::maybe_serve_cached_response
 //@ bounds=BlockState with a cached response (body of 33 symbolic bytes, symbolic id/token/ETag) and any previous Block2 preference; request with Block2 num 0..3 (symbolic) at size 16, symbolic id/token/type
 //@ what=a Block2 request is served from the cache (Ok(true)); the entry is released exactly when the final block was served; a block beyond the end is an error; the recorded preference is the current request's
 c08_release!(c08_release, true, true);
 
-//@ props=C08 tier=quick timeout=2400 mem=24 cap=3 name=c08_release_plain_get
+//@ props=C08 tier=quick timeout=2400 mem=4 cap=3 name=c08_release_plain_get
 //@ functions=BlockHandler::maybe_handle_request_block2
 //@ bounds=BlockState with a cached response and any previous Block2 preference; request WITHOUT a Block2 option
 //@ what=a request without Block2 is not intercepted, leaves the cache alone and leaves no stale block preference behind (so the next response starts at block 0)
 c08_release!(c08_release_plain_get, true, false);
 
-//@ props=C08 tier=quick timeout=2400 mem=24 cap=3 name=c08_release_no_cache
+//@ props=C08 tier=quick timeout=2400 mem=4 cap=3 name=c08_release_no_cache
 //@ functions=BlockHandler::maybe_handle_request_block2
 //@ bounds=BlockState without a cached response, any previous preference; request with Block2 num 0..3
 //@ what=without a cached response the request reaches the application (Ok(false)) and its Block2 preference is recorded for the response
@@ -428,7 +428,7 @@ fn key_request(code: u8, ep: u8, shape: u8) -> CoapRequest<u8> {
     CoapRequest::from_packet(p, ep)
 }
 
-//@ props=C12 tier=quick timeout=900 mem=12 cap=2
+//@ props=C12 tier=quick timeout=900 mem=4 cap=2
 //@ functions=RequestCacheKey::from(&CoapRequest), CoapRequest::get_method, CoapRequest::get_path_as_vec (no Uri-Path), derived Eq/Ord of RequestCacheKey
 //@ bounds=two requests without Uri-Path; method code byte 1..7 and endpoint (u8) symbolic for both
 //@ what=cache keys are equal iff method and endpoint are equal; the derived order is consistent with equality
@@ -450,7 +450,7 @@ fn c12_key_method_endpoint() {
     core::mem::forget((r1, r2, k1, k2));
 }
 
-//@ props=C12 tier=quick timeout=1800 mem=24 cap=2
+//@ props=C12 tier=quick timeout=1800 mem=33 cap=2
 //@ functions=RequestCacheKey::from(&CoapRequest), CoapRequest::get_path_as_vec, OptionValueString::try_from
 //@ bounds=paths enumerated from a concrete list (segments ["a","b"] vs ["a/b"] vs ["a","b"] again, plus ["a"] as a prefix); method and endpoint symbolic
 //@ what=paths that differ only in segmentation or are prefixes of one another give different keys; equal paths collapse exactly when method and endpoint agree
@@ -589,28 +589,28 @@ macro_rules! c08_first_block_concrete {
     };
 }
 
-//@ props=C08,C10,C12 tier=experimental timeout=1800 mem=20 cap=3 lru=1 loops=largest_power_of_2_not_in_excess:66 name=c08_wiring_unsolicited
+//@ props=C08,C10,C12 tier=experimental timeout=1800 mem=16 cap=3 lru=1 loops=largest_power_of_2_not_in_excess:66 name=c08_wiring_unsolicited
 //@ functions=BlockHandler::intercept_response, BlockHandler::negotiate_block_size_if_necessary, BlockHandler::compute_message_size_hack, BlockHandler::maybe_serve_cached_response, BlockHandler::packet_clone_limited
 //@ bounds=ONE scenario with symbolic contents: budget 40, no client preference, body of 17 symbolic bytes, request id/token/type symbolic
 //@ what=wiring of intercept_response (which arguments reach the kernel and the serve step, cache iff more): block 0 = first 16 bytes, more set, whole body cached, reply carries the request's id/token and fits the budget. The for-all statements over budgets, preferences and bodies are decided on the pieces (c10_negotiate, c10_overhead_bridge, c08_serve_step); the symbolic-budget form of this harness does not finish (symex 1300 s, then out of memory / time-out at 40 min)
 //@ assumes=cache lookup modelled: entry() returns the harness-owned BlockState (no key mapping, expiry or eviction)
 c08_first_block_concrete!(c08_wiring_unsolicited, 40, None, 17);
 
-//@ props=C08,C10,C12 tier=experimental timeout=1800 mem=20 cap=3 lru=1 loops=largest_power_of_2_not_in_excess:66 name=c08_wiring_empty_early
+//@ props=C08,C10,C12 tier=experimental timeout=1800 mem=16 cap=3 lru=1 loops=largest_power_of_2_not_in_excess:66 name=c08_wiring_empty_early
 //@ functions=BlockHandler::intercept_response, BlockHandler::maybe_serve_cached_response
 //@ bounds=ONE scenario: budget 64, client asks for 32-byte blocks at block 0, empty body
 //@ what=an empty body with early negotiation is answered with an empty final block (more clear, nothing cached), not an error
 //@ assumes=cache lookup modelled
 c08_first_block_concrete!(c08_wiring_empty_early, 64, Some(1), 0);
 
-//@ props=C08,C10,C12 tier=experimental timeout=2400 mem=24 cap=3 lru=1 loops=largest_power_of_2_not_in_excess:66 name=c08_wiring_early_reduced
+//@ props=C08,C10,C12 tier=experimental timeout=2400 mem=19 cap=3 lru=1 loops=largest_power_of_2_not_in_excess:66 name=c08_wiring_early_reduced
 //@ functions=BlockHandler::intercept_response
 //@ bounds=ONE scenario: budget 64 (room for 32-byte blocks), client asks for 64-byte blocks at block 0, body of 40 symbolic bytes
 //@ what=the server reduces the client's size to 32: block 0 = first 32 bytes, more set, cached
 //@ assumes=cache lookup modelled
 c08_first_block_concrete!(c08_wiring_early_reduced, 64, Some(2), 40);
 
-//@ props=C10,C09 tier=quick timeout=1800 mem=20 cap=3 loops=largest_power_of_2_not_in_excess:66
+//@ props=C10,C09 tier=quick timeout=1800 mem=7 cap=3 loops=largest_power_of_2_not_in_excess:66
 //@ functions=BlockHandler::maybe_handle_request_block1 (request without Block1), BlockHandler::negotiate_block_size_if_necessary, BlockHandler::compute_message_size_hack
 //@ bounds=request without Block1 option: 1-byte token, payload length symbolic 0..100, type symbolic (CON/NON/ACK/RST); budget M symbolic in [overhead + 28, 96] with overhead = 5
 //@ what=a request that fits is passed on untouched; a request too large for the budget is answered 4.13 with a Block1 hint (block 0) whose size is a power of two >= 16 that fits the budget, instead of being processed; without a prepared response the situation is an error, not a panic
@@ -671,7 +671,7 @@ fn c10_413_hint() {
     core::mem::forget(state);
 }
 
-//@ props=C11 tier=experimental timeout=2400 mem=24 cap=3 lru=1 loops=largest_power_of_2_not_in_excess:66
+//@ props=C11 tier=experimental timeout=2400 mem=19 cap=3 lru=1 loops=largest_power_of_2_not_in_excess:66
 //@ functions=BlockHandler::intercept_request, BlockHandler::maybe_handle_request_block1 (no Block1), BlockHandler::maybe_handle_request_block2, BlockHandler::maybe_serve_cached_response, CoapRequest::apply_from_error
 //@ bounds=one request of any type (CON/NON/ACK/RST), 1-byte token, Block2 option absent or raw bytes of length 0..3 (malformed values included), no Block1, payload 0..2; budget M symbolic 0..5000; arbitrary BlockState: cached response (body 20 bytes) or none, any previous Block2 preference
 //@ what=intercept_request returns Ok or Err - never panics; an Err renders as a 4.xx/5.xx reply through apply_from_error exactly when a response was prepared and the error has a code
